@@ -101,6 +101,10 @@ def m_str_misc(ex, f, a):
     if op == 'trim_start': return mkstr(t.lstrip())
     if op == 'trim_end': return mkstr(t.rstrip())
     if op in ('trim_matches', 'trim_start_matches', 'trim_end_matches'):
+        p1 = ex.deref(a[1])
+        if isinstance(p1, Agg) and p1.ty == 'array':
+            cs = ''.join(chr(c) for c in p1.fields)
+            return mkstr(t.strip(cs) if op == 'trim_matches' else (t.lstrip(cs) if 'start' in op else t.rstrip(cs)))
         p = pystr(Str(pat()))
         if len(p) != 1: raise Unsupported('trim_matches with multi-char pattern')
         return mkstr(t.strip(p) if op == 'trim_matches' else (t.lstrip(p) if 'start' in op else t.rstrip(p)))
@@ -300,12 +304,18 @@ def m_print(ex, f, a): return UNIT
 @pattern(r'^<.* as IntoIterator>::into_iter$', prio=8)
 def m_into_iter(ex, f, a):
     st = self_type(f) or ''
+    t = ex.deref_ref(a[0])
+    if isinstance(t, Agg) and t.ty not in ('array', 'Option', 'Range', 'RangeInclusive', 'tuple') and not isinstance(a[0], Ref):
+        return a[0]          # a workspace type that is itself an Iterator: `impl<I: Iterator> IntoIterator for I` is the identity
     return as_iter(ex, a[0], st.startswith('&') or isinstance(a[0], Ref))
 @pattern(r'^<.* as (Iterator|DoubleEndedIterator|ExactSizeIterator)>::(\w+)(::<.*>)?$', prio=8)
 def m_iter_method(ex, f, a):
     op = mt.strip_generics(f).rsplit('::', 1)[1]
     it = a[0]
     if isinstance(it, Ref): it = it.get()
+    if isinstance(it, Agg) and it.ty not in ('array', 'Option', 'Range', 'RangeInclusive', 'tuple'):
+        # provided Iterator method on a workspace iterator type: elements come from its own `next` (executed from MIR)
+        it = WorkspaceIter(ex, it, self_type(f))
     if not isinstance(it, Iter): it = as_iter(ex, it)
     if op == 'next': return it.pull(ex)
     if op == 'next_back': return it.pull(ex, True)
@@ -432,6 +442,31 @@ def m_iter_method(ex, f, a):
         return zand(*[veq(ex, x, y) for x, y in zip(xs, ys)])
     if op == 'size_hint': return Agg('tuple', 0, [0, NONE()])
     raise Unsupported('iterator method ' + op + ' in ' + f)
+class WorkspaceIter(Iter):
+    def __init__(s, ex, value, tytext):
+        Iter.__init__(s, []); s.holder = [value]; s.ref = ex.W.resolve('<%s as Iterator>::next' % tytext, getattr(ex, 'cur_crate', 'compiler'))
+        if s.ref is None: raise Unsupported('no Iterator::next body for ' + str(tytext))
+        s.subst = ex.W.call_subst('<%s as Iterator>::next' % tytext, s.ref)
+    def pull(s, ex, from_back=False):
+        if from_back != s.rev: raise Unsupported('reverse iteration over a workspace iterator')
+        while True:
+            r_ = ex.run_body(s.ref, [Ref(s.holder, 0)], s.subst)
+            if r_.idx == 0: return r_
+            v = r_.fields[0]; keep = True
+            for st in s.stages:
+                k = st[0]
+                if k == 'map': v = callf(ex, st[1], v)
+                elif k == 'filter':
+                    h = [v]
+                    if not ex.branch_bool(callf(ex, st[1], Ref(h, 0))): keep = False; break
+                elif k == 'filter_map':
+                    o = callf(ex, st[1], v)
+                    if o.idx == 0: keep = False; break
+                    v = o.fields[0]
+                elif k == 'enumerate': v = Agg('tuple', 0, [st[1][0], v]); st[1][0] += 1
+                else: raise Unsupported('stage %s over a workspace iterator' % k)
+            if keep: return some(v)
+    def clone(s): raise Unsupported('clone of a workspace iterator')
 def _unsup(msg): raise Unsupported(msg)
 def _take(ex, it, n):
     out = []
